@@ -57,6 +57,12 @@ BATTERY = [
     ("b11", {"required": ["a"], "maxLength": 1}, [{}, "abc"], None),
     ("b12", {"const": 1, "contains": {"type": "integer"}}, [1, [1], ["a"]], None),
     ("b13", {"multipleOf": 2, "divisibleBy": 3}, [4, 9], None),
+    ("b14", {"minimum": 5, "exclusiveMinimum": True, "maximum": 10, "exclusiveMaximum": True}, [5, 10], None),
+    ("b15", {"items": [{"type": "string"}], "additionalItems": False}, [["a", 1]], None),
+    ("b16", {"properties": {"a": {}}, "patternProperties": {"^b": {}}, "additionalProperties": False},
+     [{"a": 1, "b": 1, "c": 1}], None),
+    ("b17", {"$ref": "#/definitions/s", "minimum": 100, "maxLength": 0, "definitions": {"s": {"type": "integer"}}},
+     [1, "x"], None),
 ]
 OVERRIDABLE = ["minimum", "maxLength", "enum", "x-marker", "x-also", "required", "items"]
 T_DEPENDENT = ("b2", "b3")
@@ -403,7 +409,10 @@ def execute(scn):
                 ok = True
             elif k == "fc_subset":
                 names = [n for n in op["names"] if n in model_registry]
-                f = FormatChecker(formats=names)
+                given = list(names)
+                f = FormatChecker(formats=given)
+                given.append("regex")          # the caller's list is the caller's business afterwards
+                del given[:1]
                 ent = add("fc", f, step, "FormatChecker(formats=...)")
                 if ent["vec"]["names"] != sorted(names):
                     violations.append({"oracle": "subset-FormatChecker-has-wrong-names", "where": step, "op": k,
